@@ -2,6 +2,7 @@ package verifsim
 
 import (
 	"encoding/json"
+	"errors"
 	"fmt"
 	"os"
 	"path/filepath"
@@ -26,6 +27,9 @@ func c06Recovery(w *World, db string, tracked map[string]Stored, inflight *Reque
 		// the operator restarts the REAL binary on the crashed file first; what it serves must be old or new too
 		served, status, err := realRestart(os.Getenv("VERIF_OMNI_BIN"), db, w)
 		st.realRestarts++
+		if errors.Is(err, errPortTrouble) {
+			return []Violation{{Class: "infra", Detail: err.Error()}}, nil
+		}
 		if err != nil {
 			return []Violation{{Class: "corrupt_after_crash", Sig: "corrupt_after_crash/real_binary_restart", Detail: fmt.Sprintf("after a kill at %s the real cmd/omniwitness binary could not serve: %v", spec, err)}}, nil
 		}
@@ -128,7 +132,9 @@ func c06One(t *testing.T, p *Plan, planPath string, crashes []string, st *c06Sta
 	from := 0
 	if real && os.Getenv("VERIF_OMNI_BIN") != "" {
 		// the store is created by the operator's first start of the REAL binary (its journal mode, its pragmas)
-		if _, _, err := realRestart(os.Getenv("VERIF_OMNI_BIN"), db, w); err != nil {
+		if _, _, err := realRestart(os.Getenv("VERIF_OMNI_BIN"), db, w); errors.Is(err, errPortTrouble) {
+			return nil, []string{err.Error()}
+		} else if err != nil {
 			return []Violation{{Class: "corrupt_after_crash", Sig: "corrupt_after_crash/real_binary_first_start", Detail: "the real cmd/omniwitness binary could not start on a fresh store file: " + err.Error()}}, nil
 		}
 		st.realRestarts++
@@ -175,6 +181,9 @@ func c06One(t *testing.T, p *Plan, planPath string, crashes []string, st *c06Sta
 			inflight = resolveUpdate(w, op, tracked[w.Logs[op.L%len(w.Logs)].ID])
 		}
 		viol, state := c06Recovery(w, db, tracked, inflight, spec, cr.Reads, real && os.Getenv("VERIF_OMNI_BIN") != "", st)
+		if len(viol) == 1 && viol[0].Class == "infra" {
+			return nil, []string{viol[0].Detail}
+		}
 		if len(viol) > 0 {
 			return viol, nil
 		}
